@@ -17,7 +17,8 @@ WATCHDOG = {"quick": 1200, "thorough": 3300}
 REQUIRED_CLASSES = {t: ["names:equal", "names:disjoint", "names:prm_contained_in_obj", "names:obj_contained_in_prm",
                         "names:overlapping", "order:permuted_levels", "levels:3", "unnamed_level", "keys:int", "keys:str",
                         "keys:interval", "keys:coinciding_positions", "lengths:equal", "lengths:unequal", "obj:Series",
-                        "obj:DataFrame", "prm:Series", "prm:DataFrame", "prm:scalar", "prm:array", "end_to_end:woehler"]
+                        "obj:DataFrame", "prm:Series", "prm:DataFrame", "prm:scalar", "prm:array", "prm:array_float64", "prm:array_int",
+                        "prm:array_float32", "prm:list_of_int", "end_to_end:woehler"]
                     for t in ("quick", "thorough")}
 REQUIRED_MONITORS = ["contract:operands_unchanged", "contract:identical_result_index",
                      "contract:result_row==original_value_for_key", "contract:no_original_row_lost",
@@ -185,8 +186,20 @@ def _scalar_array(ctx, rng, Broadcaster):
     ctx.check("scalar/array:values", ok, observed=repr(prm)[:200])
     # array
     ctx.tag("prm:array")
+    # the array's own type must not leak into the object: integer counts, float32 measurements, plain lists
+    form = int(rng.integers(0, 4))
+    ctx.tag(["prm:array_float64", "prm:array_int", "prm:array_float32", "prm:list_of_int"][form])
+
+    def _arr(k):
+        if form == 0:
+            return rng.uniform(0, 1, k)
+        if form == 1:
+            return rng.integers(1, 1000, k)
+        if form == 2:
+            return rng.uniform(0, 1, k).astype(np.float32)
+        return [int(v) for v in rng.integers(1, 1000, k)]
     if as_frame:
-        arr = rng.uniform(0, 1, n)
+        arr = _arr(n)
         prm, o = Broadcaster(obj).broadcast(arr)
         ok = isinstance(prm, pd.Series) and prm.index.equals(obj.index) and np.array_equal(prm.to_numpy(), arr) and o.equals(before)
         ctx.check("scalar/array:values", ok, observed=repr(prm)[:200])
@@ -197,7 +210,7 @@ def _scalar_array(ctx, rng, Broadcaster):
             ctx.ok("array_length_mismatch_must_raise")
     else:
         m = int(rng.integers(1, 5))
-        arr = rng.uniform(0, 1, m)
+        arr = _arr(m)
         prm, o = Broadcaster(obj).broadcast(arr)
         ok = (isinstance(o, pd.DataFrame) and o.shape == (m, n) and np.array_equal(np.asarray(prm), arr)
               and all(np.array_equal(o.iloc[r].to_numpy(), before.to_numpy()) for r in range(m)) and list(o.columns) == list(idx))
